@@ -56,6 +56,27 @@ def gen(chk, tier):
                     a2 = [list(x) for x in args]
                     a2[ai] = (a2[ai] + rb(rng, 64))[:L] if L > 32 else a2[ai][32 - L:]
                     verify("length_" + name, *a2)
+    # tiny t = (r + s) mod n and tiny s (valid triples, and the same with e changed): the double-scalar
+    # multiplication sees scalars whose recoding has only a few low digits - its first iterations, the skip logic and
+    # the interleaved comb rows are exercised nowhere else (honest signatures have t < 2^12 with probability 2^-244)
+    small = [1, 2, 3, 5, 17, 255, 1000, 4095, 4096, 8191, 8192, 1 << 13, (1 << 14) - 1, 1 << 16, (1 << 20) + 1]
+    for tv in (small if not q else small[:10]):
+        d = rscalar(rng)
+        s_ = rscalar(rng)
+        pt, e, r, R = forged(d, s_, tv)
+        if r and R is not None:
+            verify("tiny_t_valid", b32(pt[0]), b32(pt[1]), b32(e), b32(r), b32(s_))
+            verify("tiny_t_wrong_e", b32(pt[0]), b32(pt[1]), b32((e + 1) % N), b32(r), b32(s_))
+            pt2 = ec.mul(rscalar(rng))
+            verify("tiny_t_wrong_key", b32(pt2[0]), b32(pt2[1]), b32(e), b32(r), b32(s_))
+        t_ = rscalar(rng)
+        pt, e, r, R = forged(d, tv, t_)            # tiny s
+        if r and R is not None:
+            verify("tiny_s_valid", b32(pt[0]), b32(pt[1]), b32(e), b32(r), b32(tv))
+            verify("tiny_s_wrong_e", b32(pt[0]), b32(pt[1]), b32((e + 1) % N), b32(r), b32(tv))
+        pt, e, r, R = forged(d, tv, small[(small.index(tv) + 3) % len(small)])      # both tiny
+        if r and R is not None:
+            verify("tiny_s_t_valid", b32(pt[0]), b32(pt[1]), b32(e), b32(r), b32(tv))
     # TWO arguments with wrong lengths that compensate each other (31 + 33, 30 + 34, 0 + 64, X||Y in one argument):
     # a length test on the total, or on a concatenation, accepts these
     d = rscalar(rng)
